@@ -42,6 +42,7 @@ def run(ctx: Ctx):
     )
     ctx.not_decided = ["equality of two concrete evaluations under two read schedules"]
     write_inventory(ctx)
+    uninitialised_buffers(ctx)
     idempotence(ctx)
     descriptor(ctx)
     raw_arrays(ctx)
@@ -551,3 +552,40 @@ def written_keys_not_read_back(ctx: Ctx):
         ctx.violated("written-keys-not-read-back", where, bad, "the shim never reads back the keys it writes into the caller's dict", "what is read depends on whether shimmed_dimension_dict (or an earlier cube built from the same response) has already written the key")
     else:
         ctx.held("written-keys-not-read-back", where, "no read of 'subvar_alias' / 'datetime_value' inside the shim", "")
+
+
+def uninitialised_buffers(ctx: Ctx):
+    """`np.empty` / `np.empty_like` hand out RECYCLED memory.  Filled completely it is as good as any array; used as the
+    `out=` of a ufunc under a `where=` mask the unselected cells keep whatever the allocator's last tenant left there: the
+    value reported depends on which arrays were freed before - on the access history, on sibling cubes."""
+    from ..stmts import resolver
+
+    ctl = ast.parse("def f(self, margin):\n    bases = self.table_weighted_bases\n    out = np.empty_like(margin, dtype=np.float64)\n    np.divide(margin, bases, out=out, where=bases != 0)\n    return out\ndef ok(self, margin):\n    bases = self.table_weighted_bases\n    return np.divide(margin, bases, out=np.full(margin.shape, np.nan), where=bases != 0)\n")
+
+    def hits_in(fn):
+        res = resolver(fn, multi=True)
+        out = []
+        for c in ast.walk(fn):
+            if isinstance(c, ast.Call) and any(k.arg == "where" for k in c.keywords):
+                for k in c.keywords:
+                    if k.arg == "out":
+                        for v in res(k.value):
+                            if isinstance(v, ast.Call) and u(v.func) in ("np.empty", "np.empty_like", "np.ndarray"):
+                                out.append(u(c)[:100])
+                                break
+        return out
+
+    if len(hits_in(ctl.body[0])) != 1 or hits_in(ctl.body[1]):
+        from ..loader import AnalysisError
+
+        raise AnalysisError("uninitialised-buffers: the controls are no longer recognised")
+    n, hits = 0, []
+    for m in ctx.repo.all_members():
+        n += 1
+        for t in hits_in(m.node):
+            hits.append((f"{m.cls.module.short}::{m.cls.name}.{m.name}", t))
+    ctx.count("members scanned for masked writes into uninitialised buffers", n)
+    for where, t in hits:
+        ctx.violated("uninitialised-memory", where, t, "a buffer initialised with the value the unselected cells are to have (np.full(.., np.nan), np.zeros)", "cells outside the mask report whatever the recycled memory held: different values for different access schedules")
+    if not hits:
+        ctx.held("uninitialised-memory", "package: every ufunc call with out= and where=", f"{n} members, no masked write into an np.empty buffer", "", "controls recognised")
